@@ -2,9 +2,12 @@
      (0 mk_args)                    -> result screen      (Screen(...) with the given arguments)
      (1 mk_args sub_rows)           -> result screen      (construct, then construct sub_rows with
                                                            the first screen's mappings: reuse)
-     (2 isint ids)                  -> bool               (numpy_array_is_0_indexed_integers) *)
+     (2 isint ids)                  -> bool               (numpy_array_is_0_indexed_integers)
+     (3 tmap smap ctrl tname sname sid) -> (n_unique_treatment_types n_unique_doses doses_for_treatment(tname)
+                                            treatment_ids_from_treatment_name(tname) result sample_id_from_sample_name(sname)
+                                            result sample_name_from_sample_id(sid))   of the ExperimentSpace with these attributes *)
 From Coq Require Import ZArith List.
-From Batchie Require Import Lib.Sexp Lib.Num Model.Encode Model.Screen Model.ScreenIO.
+From Batchie Require Import Lib.Sexp Lib.Num Model.Encode Model.Screen Model.ScreenIO Model.Persist.
 Import ListNotations.
 Open Scope Z_scope.
 
@@ -24,6 +27,15 @@ Definition run_c01 (orc : oracle) (s : sexp) : sexp :=
       match as_bool isint, as_Zs ids with
       | Some b, Some ids => of_bool (zero_indexed b ids)
       | _, _ => bad_input
+      end
+  | SL [SZ 3; tm; sm; ctrl; tn; sn; sid] =>
+      match as_tmapping tm, as_nmapping sm, as_name ctrl, as_name tn, as_name sn, as_Z sid with
+      | Some tm, Some sm, Some ctrl, Some tn, Some sn, Some sid =>
+          let sp := {| sp_tmap := tm; sp_smap := sm; sp_ctrl := ctrl |} in
+          SL [SZ (space_n_treatment_types sp); SZ (space_n_doses sp); of_Zs (space_doses_for_treatment sp tn);
+              of_Zs (space_treatment_ids_of_name sp tn); of_result SZ (space_sample_id sp sn);
+              of_result of_name (space_sample_name sp sid)]
+      | _, _, _, _, _, _ => bad_input
       end
   | _ => bad_input
   end.
